@@ -33,7 +33,7 @@ def shards(tier, seed):
 def requirements(tier):
     r = {f"judged:{n}": 15 for n in NAMES}
     r.update({f"pref_judged:{n}": 5 for n in ["UPGrad", "DualProj", "AlignedMTL", "ConFIG", "Constant", "GradDrop"]})
-    r.update({"permutations_checked": 10000, "caller_owned_vector_checked": 200, "w_exhaustive_m4": 100, "w_m_ge_5": 50, "w_float32": 100})
+    r.update({"permutations_checked": 10000, "caller_owned_vector_checked": 200, "w_zero_row_with_per_row_vector": 15, "w_exhaustive_m4": 100, "w_m_ge_5": 50, "w_float32": 100})
     if tier == "thorough":
         r["w_exhaustive_m5"] = 100
     return r
@@ -52,6 +52,11 @@ def gen_case(rng, i):
         J, klass = M.gen(rng, max_m=7, max_n=8)
     if name == "Krum" and rng.random() < 0.4:
         J, klass = M.krum_hostile(rng, dname)
+    if name != "Krum" and J.shape[0] >= 2 and rng.random() < 0.15:
+        # an objective whose gradient vanishes, at a random position (its preference / weight does not vanish)
+        J = J.copy()
+        J[int(rng.integers(J.shape[0]))] = 0.0
+        klass += "+zero_row"
     desc = E.config(rng, name, J.shape[0], dname, with_pref=True if name == "Constant" else None)
     if desc is None:
         return None
@@ -142,6 +147,8 @@ def check_case(case, ctx):
         ctx.count("w_m_ge_5")
     if dname == "float32":
         ctx.count("w_float32")
+    if any(desc.get(k) is not None for k in ("pref", "weights", "leak")) and (np.linalg.norm(J, axis=1) == 0).any() and s > 0:
+        ctx.count("w_zero_row_with_per_row_vector")
     distinct_rows = len({tuple(r) for r in J.tolist()}) == m
     ctx.evaluated(fingerprint(case), nontrivial=m >= 3 and (distinct_rows or any(desc.get(k) is not None for k in ("pref", "weights", "leak"))))
     ctx.klass(f"class={case['class']}")
